@@ -234,4 +234,343 @@ def refRing : RingIR :=
 /-- the decidable obligation generated for `makeringlatticeCIJ` -/
 def ringOk (ir : RingIR) : Bool := ir == refRing
 
+/-! # `makerandCIJdegreesfixed`
+
+    def makerandCIJdegreesfixed(inv, outv, seed=None):
+        rng = get_rng(seed)
+        n = len(inv)
+        k = np.sum(inv)
+        in_inv = np.zeros((k,), dtype=int)
+        out_inv = np.zeros((k,), dtype=int)
+        i_in = 0
+        i_out = 0
+        for i in range(n):
+            in_inv[i_in:i_in + inv[i]] = i
+            out_inv[i_out:i_out + outv[i]] = i
+            i_in += inv[i]
+            i_out += outv[i]
+        CIJ = np.eye(n)
+        edges = np.array((out_inv, in_inv[rng.permutation(k)]))
+        for i in range(k):
+            if CIJ[edges[0, i], edges[1, i]]:
+                tried = set()
+                while True:
+                    if len(tried) == k:
+                        raise BCTParamError(…)
+                    switch = rng.randint(k)
+                    while switch in tried:
+                        switch = rng.randint(k)
+                    if not (CIJ[edges[0, i], edges[1, switch]] or CIJ[edges[0, switch], edges[1, i]]):
+                        CIJ[edges[0, i], edges[1, switch]] = 1
+                        if switch < i:
+                            CIJ[edges[0, switch], edges[1, switch]] = 0
+                            CIJ[edges[0, switch], edges[1, i]] = 1
+                        t = edges[1, i]
+                        edges[1, i] = edges[1, switch]
+                        edges[1, switch] = t
+                        break
+                    tried.add(switch)
+            else:
+                CIJ[edges[0, i], edges[1, i]] = 1
+        CIJ -= np.eye(n)
+        return CIJ
+
+The statements are matched positionally (the nesting is the shape of the IR); every name and literal is a field of `DfIR`; the stores
+into `CIJ` and `edges` are small statement lists (`EStmt`).  Slices are clipped at the length of the array, as NumPy does; the draws of
+`rng.permutation` and `rng.randint` are recorded values (as in `Synth.degreesFixed`). -/
+
+/-- `<edges>[<row>, <idx>]` -/
+structure ERef where
+  arr : String
+  row : Nat
+  idx : String
+  deriving DecidableEq, Repr
+
+/-- `<mat>[<r>, <c>]` with both indices read from the edge array -/
+structure Cell where
+  mat : String
+  r : ERef
+  c : ERef
+  deriving DecidableEq, Repr
+
+inductive EStmt
+  /-- `<cell> = <v>` -/
+  | setCell (c : Cell) (v : Int)
+  /-- `<t> = <e>` -/
+  | load (t : String) (e : ERef)
+  /-- `<dst> = <src>` -/
+  | copyE (dst src : ERef)
+  /-- `<dst> = <t>` -/
+  | store (dst : ERef) (t : String)
+  deriving DecidableEq, Repr
+
+/-- `<arr>[<lo>:<lo2> + <vec>[<idx>]] = <val>` -/
+structure SliceSet where
+  arr : String
+  lo : String
+  lo2 : String
+  vec : String
+  idx : String
+  val : String
+  deriving DecidableEq, Repr
+
+structure DfIR where
+  recognised : Bool
+  origins : List (String × String)
+  params : List String
+  defaults : List (String × String)
+  rng : String
+  rngCallee : String
+  rngArg : String
+  /-- `<dim> = len(<dimOf>)`, `<tot> = np.sum(<totOf>)` -/
+  dim : String
+  dimOf : String
+  tot : String
+  totOf : String
+  /-- `<inArr> = np.zeros((<inLen>,), dtype=<inDtype>)`, the same for `<outArr>`; `<iIn> = <iIn0>`, `<iOut> = <iOut0>` -/
+  inArr : String
+  inLen : String
+  inDtype : String
+  outArr : String
+  outLen : String
+  outDtype : String
+  iIn : String
+  iIn0 : Nat
+  iOut : String
+  iOut0 : Nat
+  /-- `for <fVar> in range(<fN>):` the two slice stores and `<a1Var> += <a1Vec>[<a1Idx>]`, `<a2Var> += <a2Vec>[<a2Idx>]` -/
+  fVar : String
+  fN : String
+  f1 : SliceSet
+  f2 : SliceSet
+  a1Var : String
+  a1Vec : String
+  a1Idx : String
+  a2Var : String
+  a2Vec : String
+  a2Idx : String
+  /-- `<cij> = np.eye(<eyeN>)`, `<edges> = np.array((<edge0>, <edge1>[<permRng>.permutation(<permN>)]))` -/
+  cij : String
+  eyeN : String
+  edges : String
+  edge0 : String
+  edge1 : String
+  permRng : String
+  permN : String
+  /-- `for <mVar> in range(<mN>):`, `if <occupied>:` -/
+  mVar : String
+  mN : String
+  occupied : Cell
+  /-- `<tried> = set()`, `if len(<lenOf>) == <lenEq>: raise <exc>(…)` -/
+  tried : String
+  lenOf : String
+  lenEq : String
+  exc : String
+  /-- `<sw> = <swRng>.randint(<swN>)`, `while <wIn> in <wSet>: <sw2> = <sw2Rng>.randint(<sw2N>)` -/
+  sw : String
+  swRng : String
+  swN : String
+  wIn : String
+  wSet : String
+  sw2 : String
+  sw2Rng : String
+  sw2N : String
+  /-- `if not (<free1> or <free2>):` <accept>; `if <ltL> < <ltR>:` <ltBody>; <swap>; `break` -/
+  free1 : Cell
+  free2 : Cell
+  accept : List EStmt
+  ltL : String
+  ltR : String
+  ltBody : List EStmt
+  swap : List EStmt
+  /-- `<addSet>.add(<addVal>)`; `else:` <elseStores> -/
+  addSet : String
+  addVal : String
+  elseStores : List EStmt
+  /-- `<subL> -= np.eye(<subEyeN>)`, `return <ret>` -/
+  subL : String
+  subEyeN : String
+  ret : String
+  deriving DecidableEq, Repr
+
+/-- the names of the source refer to each other as they must -/
+def DfIR.coherent (ir : DfIR) : Bool :=
+  match ir.params with
+  | [pIn, pOut, pSeed] =>
+    ir.rngArg == pSeed && ir.dimOf == pIn && ir.totOf == pIn && ir.inLen == ir.tot && ir.outLen == ir.tot &&
+    ir.inDtype == "int" && ir.outDtype == "int" && ir.fN == ir.dim &&
+    ir.f1 == { arr := ir.inArr, lo := ir.iIn, lo2 := ir.iIn, vec := pIn, idx := ir.fVar, val := ir.fVar } &&
+    ir.f2 == { arr := ir.outArr, lo := ir.iOut, lo2 := ir.iOut, vec := pOut, idx := ir.fVar, val := ir.fVar } &&
+    ir.a1Var == ir.iIn && ir.a1Vec == pIn && ir.a1Idx == ir.fVar && ir.a2Var == ir.iOut && ir.a2Vec == pOut && ir.a2Idx == ir.fVar &&
+    ir.eyeN == ir.dim && ir.edge0 == ir.outArr && ir.edge1 == ir.inArr && ir.permRng == ir.rng && ir.permN == ir.tot &&
+    ir.mN == ir.tot && ir.lenOf == ir.tried && ir.lenEq == ir.tot && ir.swRng == ir.rng && ir.swN == ir.tot && ir.wIn == ir.sw &&
+    ir.wSet == ir.tried && ir.sw2 == ir.sw && ir.sw2Rng == ir.rng && ir.sw2N == ir.tot && ir.ltL == ir.sw && ir.ltR == ir.mVar &&
+    ir.addSet == ir.tried && ir.addVal == ir.sw && ir.subL == ir.cij && ir.subEyeN == ir.dim && ir.ret == ir.cij &&
+    decide ([pIn, pOut, pSeed, ir.rng, ir.dim, ir.tot, ir.inArr, ir.outArr, ir.iIn, ir.iOut, ir.fVar].Nodup) &&
+    decide ([pIn, pOut, pSeed, ir.rng, ir.dim, ir.tot, ir.inArr, ir.outArr, ir.iIn, ir.iOut, ir.cij, ir.edges, ir.mVar, ir.tried, ir.sw].Nodup)
+  | _ => false
+
+variable {k : Nat}
+
+/-- `a[lo:hi] = v` on an array held as a list: the slice is clipped at the length -/
+def sliceSet {α : Type} (l : List α) (lo hi : Nat) (v : α) : List α :=
+  l.mapIdx fun p x => if lo ≤ p ∧ p < hi then v else x
+
+/-- the state of the main loop: the matrix, the two rows of `edges`, the temporary -/
+structure ESt (n k : Nat) where
+  C : AMat Int n
+  e0 : Vector (Fin n) k
+  e1 : Vector (Fin n) k
+  t : Option (String × Fin n)
+
+/-- the index a name denotes inside the main loop: the loop variable or the drawn `switch` -/
+def idxOf (ir : DfIR) (i s : Fin k) (x : String) : Option (Fin k) :=
+  if x = ir.mVar then some i else if x = ir.sw then some s else none
+
+def readE (ir : DfIR) (st : ESt n k) (i s : Fin k) (e : ERef) : Option (Fin n) :=
+  if e.arr = ir.edges then
+    match idxOf ir i s e.idx with
+    | some p => if e.row = 0 then some st.e0[p] else if e.row = 1 then some st.e1[p] else none
+    | none => none
+  else none
+
+def readCell (ir : DfIR) (st : ESt n k) (i s : Fin k) (c : Cell) : Option Int :=
+  if c.mat = ir.cij then
+    match readE ir st i s c.r, readE ir st i s c.c with
+    | some a, some b => some (st.C.get a b)
+    | _, _ => none
+  else none
+
+def writeE (ir : DfIR) (st : ESt n k) (i s : Fin k) (e : ERef) (v : Fin n) : Option (ESt n k) :=
+  if e.arr = ir.edges then
+    match idxOf ir i s e.idx with
+    | some p => if e.row = 0 then some { st with e0 := st.e0.set p v } else if e.row = 1 then some { st with e1 := st.e1.set p v } else none
+    | none => none
+  else none
+
+def execE (ir : DfIR) (i s : Fin k) (st : ESt n k) : EStmt → Option (ESt n k)
+  | .setCell c v =>
+    if c.mat = ir.cij then
+      match readE ir st i s c.r, readE ir st i s c.c with
+      | some a, some b => some { st with C := st.C.set a b v }
+      | _, _ => none
+    else none
+  | .load t e => if t = ir.sw ∨ t = ir.mVar then none else (readE ir st i s e).map fun v => { st with t := some (t, v) }
+  | .copyE dst src => match readE ir st i s src with
+    | some v => writeE ir st i s dst v
+    | none => none
+  | .store dst t => match st.t with
+    | some (t', v) => if t' = t then writeE ir st i s dst v else none
+    | none => none
+
+def execEs (ir : DfIR) (i s : Fin k) : List EStmt → ESt n k → Option (ESt n k)
+  | [], st => some st
+  | x :: xs, st => match execE ir i s st x with
+    | some st' => execEs ir i s xs st'
+    | none => none
+
+/-- `switch = rng.randint(k); while switch in tried: switch = rng.randint(k)` on the recorded draws -/
+def drawSw (k : Nat) (tried : List Nat) : List Nat → Except Err (Fin k × List Nat)
+  | [] => .error .outOfDraws
+  | x :: ds => if h : x < k then (if tried.contains x then drawSw k tried ds else .ok (⟨x, h⟩, ds)) else .error .badDraw
+
+/-- the `while True:` loop for edge `i` -/
+def repairI (ir : DfIR) (st : ESt n k) (i : Fin k) : Nat → List Nat → List Nat → Except Err (ESt n k × List Nat)
+  | 0, _, _ => .error .outOfDraws
+  | fuel + 1, tried, ds =>
+    if tried.length = k then .error .param else
+    match drawSw k tried ds with
+    | .error e => .error e
+    | .ok (s, ds') =>
+      match readCell ir st i s ir.free1, readCell ir st i s ir.free2 with
+      | some x, some y =>
+        if !(x != 0 || y != 0) then
+          match execEs ir i s ir.accept st with
+          | some st1 =>
+            (match (if s.val < i.val then execEs ir i s ir.ltBody st1 else some st1) with
+              | some st2 => (match execEs ir i s ir.swap st2 with
+                | some st3 => .ok (st3, ds')
+                | none => .error .protocol)
+              | none => .error .protocol)
+          | none => .error .protocol
+        else repairI ir st i fuel (s.val :: tried) ds'
+      | _, _ => .error .protocol
+
+/-- the body of `for i in range(k):` -/
+def placeI (ir : DfIR) (st : ESt n k) (i : Fin k) (ds : List Nat) : Except Err (ESt n k × List Nat) :=
+  match readCell ir st i i ir.occupied with
+  | some x =>
+    if x != 0 then repairI ir st i (ds.length + 1) [] ds
+    else match execEs ir i i ir.elseStores st with
+      | some st' => .ok (st', ds)
+      | none => .error .protocol
+  | none => .error .protocol
+
+def placeAllI (ir : DfIR) : List (Fin k) → ESt n k → List Nat → Except Err (ESt n k × List Nat)
+  | [], st, ds => .ok (st, ds)
+  | i :: is, st, ds =>
+    match placeI ir st i ds with
+    | .error e => .error e
+    | .ok (st', ds') => placeAllI ir is st' ds'
+
+/-- `np.zeros((k,), dtype=int)` read as node indices (there is no node when `n = 0`; then `k = 0` as well) -/
+def zerosL (n k : Nat) : List (Fin n) := if h : 0 < n then List.replicate k ⟨0, h⟩ else []
+
+/-- the fill loop: the two stub arrays (as lists of length `k`) -/
+def fillI (ir : DfIR) (inv outv : Fin n → Nat) (k : Nat) : List (Fin n) × List (Fin n) :=
+  let r := (List.finRange n).foldl (fun (acc : List (Fin n) × List (Fin n) × Nat × Nat) i =>
+      (sliceSet acc.1 acc.2.2.1 (acc.2.2.1 + inv i) i, sliceSet acc.2.1 acc.2.2.2 (acc.2.2.2 + outv i) i,
+        acc.2.2.1 + inv i, acc.2.2.2 + outv i))
+    (zerosL n k, zerosL n k, ir.iIn0, ir.iOut0)
+  (r.1, r.2.1)
+
+/-- the routine on `(inv, outv)` with the recorded draws -/
+def runDf (ir : DfIR) (inv outv : Fin n → Nat) (ds : List Nat) : Except Err (AMat Int n × List Nat) :=
+  if ir.coherent then
+    let k := ((List.finRange n).map inv).sum
+    if ds.length < k then .error .outOfDraws
+    else if !isPermOfRange (ds.take k) k then .error .badDraw
+    else
+      let fl := fillI ir inv outv k
+      match toVec k fl.2, toVec k ((ds.take k).filterMap (fl.1[·]?)) with
+      | some e0, some e1 =>
+        match placeAllI ir (List.finRange k) { C := eye n, e0 := e0, e1 := e1, t := none } (ds.drop k) with
+        | .error e => .error e
+        | .ok (st, rest) => .ok (AMat.ofFn fun i j => st.C.get i j - (eye n).get i j, rest)
+      | _, _ => .error .index
+  else .error .protocol
+
+def eI : ERef := { arr := "edges", row := 0, idx := "i" }
+def eIs : ERef := { arr := "edges", row := 1, idx := "i" }
+def eS : ERef := { arr := "edges", row := 0, idx := "switch" }
+def eSs : ERef := { arr := "edges", row := 1, idx := "switch" }
+
+def refDf : DfIR :=
+  { recognised := true,
+    origins := [("BCTParamError", "class bct/utils/miscellaneous_utilities.py:BCTParamError"),
+                ("get_rng", "def bct/utils/miscellaneous_utilities.py:get_rng"), ("int", "builtin"), ("len", "builtin"), ("np", "module numpy"),
+                ("range", "builtin"), ("set", "builtin")],
+    params := ["inv", "outv", "seed"], defaults := [("seed", "None")],
+    rng := "rng", rngCallee := "get_rng", rngArg := "seed", dim := "n", dimOf := "inv", tot := "k", totOf := "inv",
+    inArr := "in_inv", inLen := "k", inDtype := "int", outArr := "out_inv", outLen := "k", outDtype := "int", iIn := "i_in", iIn0 := 0, iOut := "i_out", iOut0 := 0,
+    fVar := "i", fN := "n",
+    f1 := { arr := "in_inv", lo := "i_in", lo2 := "i_in", vec := "inv", idx := "i", val := "i" },
+    f2 := { arr := "out_inv", lo := "i_out", lo2 := "i_out", vec := "outv", idx := "i", val := "i" },
+    a1Var := "i_in", a1Vec := "inv", a1Idx := "i", a2Var := "i_out", a2Vec := "outv", a2Idx := "i",
+    cij := "CIJ", eyeN := "n", edges := "edges", edge0 := "out_inv", edge1 := "in_inv", permRng := "rng", permN := "k",
+    mVar := "i", mN := "k", occupied := { mat := "CIJ", r := eI, c := eIs },
+    tried := "tried", lenOf := "tried", lenEq := "k", exc := "BCTParamError",
+    sw := "switch", swRng := "rng", swN := "k", wIn := "switch", wSet := "tried", sw2 := "switch", sw2Rng := "rng", sw2N := "k",
+    free1 := { mat := "CIJ", r := eI, c := eSs }, free2 := { mat := "CIJ", r := eS, c := eIs },
+    accept := [ .setCell { mat := "CIJ", r := eI, c := eSs } 1 ],
+    ltL := "switch", ltR := "i",
+    ltBody := [ .setCell { mat := "CIJ", r := eS, c := eSs } 0, .setCell { mat := "CIJ", r := eS, c := eIs } 1 ],
+    swap := [ .load "t" eIs, .copyE eIs eSs, .store eSs "t" ],
+    addSet := "tried", addVal := "switch",
+    elseStores := [ .setCell { mat := "CIJ", r := eI, c := eIs } 1 ],
+    subL := "CIJ", subEyeN := "n", ret := "CIJ" }
+
+/-- the decidable obligation generated for `makerandCIJdegreesfixed` -/
+def dfOk (ir : DfIR) : Bool := ir == refDf
+
 end Bct.CoreIR.Synth
